@@ -454,9 +454,9 @@ func (w *world) checkPoller(timeout time.Duration) {
 	avail := len(h.Certs) - have
 	v := c.Intn(avail + 1)
 	kind := c.Intn(8)
-	var buf bytes.Buffer
 	hdr := certexchange.ResponseHeader{PendingInstance: h.First + uint64(have+v)}
 	consumedInvalid := false
+	trailing := 0
 	var bad *certs.FinalityCertificate
 	mkBad := func(i int) *certs.FinalityCertificate {
 		// i = index in history of the certificate to forge
@@ -491,19 +491,15 @@ func (w *world) checkPoller(timeout time.Duration) {
 		return nil
 	}
 	what := "an honest peer"
-	for i := 0; i < v; i++ {
-		buf.Write(certgen.CertBytes(h.Certs[have+i]))
-	}
 	if kind >= 1 && kind <= 5 && have+v < len(h.Certs) {
 		bad = mkBad(have + v)
 		if bad != nil {
-			buf.Write(certgen.CertBytes(bad))
 			hdr.PendingInstance++
 			consumedInvalid = true
 			what = [...]string{"", "a certificate with a corrupted aggregate signature", "a certificate signed by less than a strong quorum", "a certificate whose delta does not produce the committed table", "a certificate signed by a foreign committee", "a certificate for the empty chain"}[kind]
 			// more (valid) certificates after the bad one must not be stored either
 			for i := have + v + 1; i < len(h.Certs) && c.Chance(700); i++ {
-				buf.Write(certgen.CertBytes(h.Certs[i]))
+				trailing++
 				hdr.PendingInstance++
 			}
 		}
@@ -515,13 +511,24 @@ func (w *world) checkPoller(timeout time.Duration) {
 			what = "a peer that keeps advertising more certificates than it ever sends"
 		}
 	}
-	var full bytes.Buffer
-	_ = hdr.MarshalCBOR(&full)
-	full.Write(buf.Bytes())
+	// the peer's items, in instance order starting at First+have: v valid certificates, then
+	// (optionally) the invalid one and what follows it; each request is served from the offset
+	// it asks for, at most 256 items per response
+	var items [][]byte
+	for i := 0; i < v; i++ {
+		items = append(items, certgen.CertBytes(h.Certs[have+i]))
+	}
+	if bad != nil {
+		items = append(items, certgen.CertBytes(bad))
+		for i := have + v + 1; i < have+v+1+trailing; i++ {
+			items = append(items, certgen.CertBytes(h.Certs[i]))
+		}
+	}
+	firstItem := h.First + uint64(have)
 	evil := peer.ID("poll-peer")
 	served := 0
 	runaway := false
-	w.net.SetScripted(evil, func(req []byte) ([]byte, error) {
+	w.net.SetScripted(evil, func(reqBytes []byte) ([]byte, error) {
 		served++
 		if served > 64 {
 			// the peer would go on like this for ever; break the loop with a stream error so
@@ -529,17 +536,26 @@ func (w *world) checkPoller(timeout time.Duration) {
 			runaway = true
 			return nil, ErrReset
 		}
-		if served > 1 {
-			var b bytes.Buffer
-			h2 := certexchange.ResponseHeader{PendingInstance: h.First + uint64(have+v)}
-			if kind == 7 {
-				// keeps advertising one more certificate than it will ever send
-				h2.PendingInstance = poller.NextInstance + 1
-			}
-			_ = h2.MarshalCBOR(&b)
-			return b.Bytes(), nil
+		var req certexchange.Request
+		if err := req.UnmarshalCBOR(bytes.NewReader(reqBytes)); err != nil {
+			kernel.Infra("scripted peer cannot decode request: %v", err)
 		}
-		return full.Bytes(), nil
+		var b bytes.Buffer
+		h2 := certexchange.ResponseHeader{PendingInstance: hdr.PendingInstance}
+		if served > 1 && kind == 6 {
+			h2.PendingInstance = firstItem + uint64(len(items)) // truthful from the second request on
+		}
+		if kind == 7 {
+			h2.PendingInstance = max(hdr.PendingInstance, req.FirstInstance+1) // always one more than it will ever send
+		}
+		_ = h2.MarshalCBOR(&b)
+		if req.FirstInstance >= firstItem {
+			off := req.FirstInstance - firstItem
+			for n := uint64(0); off+n < uint64(len(items)) && n < 256 && n < req.Limit; n++ {
+				b.Write(items[off+n])
+			}
+		}
+		return b.Bytes(), nil
 	})
 	w.net.Plan = nil
 	beforeNext := poller.NextInstance
